@@ -484,10 +484,26 @@ class ProbeEngine(object):
         name = ["get_processor_status", "get_iobuf", "get_iobuf_bytes"][which]
         w.trace.ev("op", name)
         w.ops.append("%s(%d, %d, %d)" % (name, p, xy[0], xy[1]))
-        status, v = rigcall(w, self.allowed(), getattr(c.mc, name), p, xy[0],
-                            xy[1])
+        text_ok = True
+        try:
+            cr.iobuf.decode("utf-8")
+        except UnicodeDecodeError:
+            text_ok = False
+        status, v = rigcall(w, self.allowed() + (
+            (UnicodeDecodeError,) if which == 1 and not text_ok else ()),
+            getattr(c.mc, name), p, xy[0], xy[1])
+        if status == "exc" and isinstance(v, UnicodeDecodeError):
+            # a console that does not hold text cannot be given as text
+            w.ops[-1] += " -> UnicodeDecodeError"
+            w.ops_completed += 1
+            return
         if status == "exc":
             return self.failed(name, v, xy)
+        if which == 1 and not text_ok:
+            w.violate("IO", "get_iobuf %r core %d returned text %r... for a "
+                      "console buffer that is not UTF-8 text: it is not what "
+                      "the core printed" % (xy, p, v[:12]),
+                      kind="iobuf-not-text")
         if which == 0:
             want = dict(cpu_state=cr.state, app_id=cr.app_id & 0xff,
                         app_name=cr.name[:16], phys_cpu=(p * 5 + 1) % 18,
@@ -619,6 +635,19 @@ class ProbeEngine(object):
                 ln = min(ln, 5000)
                 ch.cores[p].iobuf = bytes(32 + ((i * 7 + p) % 90)
                                           for i in range(ln))
+                k = t.draw(6)
+                if k == 0 and ln >= 5:
+                    # not text at all (the console holds whatever the
+                    # application wrote): bytes that are no valid UTF-8
+                    b_ = bytearray(ch.cores[p].iobuf)
+                    b_[ln // 2] = 0xe9
+                    b_[-1] = 0xff
+                    ch.cores[p].iobuf = bytes(b_)
+                    w.probe("iobuf_not_utf8")
+                elif k == 1 and ln >= 5:
+                    # valid multi-byte characters
+                    ch.cores[p].iobuf = (ch.cores[p].iobuf[:ln - 4] +
+                                         "\u00e9\u20ac".encode("utf-8"))[:ln + 1]
             for l in range(6):
                 if t.draw(8) == 0:
                     ch.links_up.discard(l)
